@@ -449,6 +449,25 @@ def evaluate(g, rec, collect):
             collect("noise-map", {"shape": list(rn.shape), "want": list(want.shape)})
         elif not M.fro(rn.astype(M.LD) - want) <= tN:
             collect("noise-map", {"err_F": M.fro(rn.astype(M.LD) - want), "tol": tN})
+    # call history: results the caller still holds must not change when the functions are called again
+    # with other profiles / noise vectors of the same shape
+    if g["s"] % 3 == 2:
+        held = []
+        if ok4 and isinstance(se, np.ndarray):
+            held.append(("smoothing_error", se, se.copy(), (x, x_a, Ause)))
+        if ok5 and isinstance(rn, np.ndarray):
+            held.append(("retrieval_noise", rn, rn.copy(), (K, S_a, S_y, e_y)))
+        ok_a, se2 = call(rec, case, "smoothing_error (other profile)", error.smoothing_error,
+                         x[::-1].copy() * 1.5 + 1.0, x_a, Ause)
+        ok_b, rn2 = call(rec, case, "retrieval_noise (other noise)", error.retrieval_noise, K, S_a, S_y,
+                         e_y[::-1].copy() * 0.5 - 1.0)
+        rec.count("history.held_results", len(held))
+        for name, obj, snap, args in held:
+            if not np.array_equal(obj, snap, equal_nan=True) and \
+                    not any(isinstance(a, np.ndarray) and np.shares_memory(obj, a) for a in args):
+                collect("result-aliased", {"function": name,
+                                           "why": "a result the caller holds changed when the function was "
+                                                  "called again with other arguments"})
     return ref
 
 
